@@ -1,5 +1,6 @@
 """C08 - Greeks are the derivatives of the price.
-Added after the seeded-defect rounds: R4s automatic Greeks for pricers parameterised by variance / log-moneyness only; R6 precision provenance of the closed-form Greeks and of npdf/ncdf/d1/d2."""
+Added after the seeded-defect rounds: R4s automatic Greeks for pricers parameterised by variance / log-moneyness only; R6 precision provenance of the closed-form Greeks and of npdf/ncdf/d1/d2.
+Third round: R7 the modules keep call flag, strike and derivative they were created with."""
 import sympy as sp
 
 from .. import bsterms as B
